@@ -21,12 +21,20 @@ import (
 // the function's nondeterministic contract (a summary, DESIGN.md 3.7)
 // instead of its body, both under the symbolic executor and natively.
 type HookSpec struct {
-	File  string // /repo-relative
+	File  string // /repo-relative, or absolute (a dependency in the module cache)
 	Funcs []string
+	// Exported makes the hook variables exported (VHook_<name>) and declares
+	// them in an extra file of the hooked package with the given signatures,
+	// so that a harness in another package can set them.
+	Exported bool
+	Decls    string // Go source of the var declarations (package clause added)
 }
 
 func rewriteWithHooks(spec HookSpec, scratch string) (virtual, real string, err error) {
-	src := filepath.Join(RepoDir, spec.File)
+	src := spec.File
+	if !filepath.IsAbs(src) {
+		src = filepath.Join(RepoDir, spec.File)
+	}
 	fset := token.NewFileSet()
 	f, err := parser.ParseFile(fset, src, nil, parser.ParseComments)
 	if err != nil {
@@ -44,6 +52,9 @@ func rewriteWithHooks(spec HookSpec, scratch string) (virtual, real string, err 
 		}
 		found[fd.Name.Name] = true
 		hook := "vHook_" + fd.Name.Name
+		if spec.Exported {
+			hook = "VHook_" + fd.Name.Name
+		}
 		var args []string
 		if fd.Recv != nil {
 			for _, fl := range fd.Recv.List {
@@ -80,10 +91,37 @@ func rewriteWithHooks(spec HookSpec, scratch string) (virtual, real string, err 
 	if err := (&printer.Config{Mode: printer.UseSpaces | printer.TabIndent, Tabwidth: 8}).Fprint(&buf, token.NewFileSet(), f); err != nil {
 		return "", "", err
 	}
-	out := filepath.Join(scratch, "hooked", strings.ReplaceAll(spec.File, "/", "_"))
+	if spec.Decls != "" {
+		buf.WriteString("\n" + spec.Decls + "\n")
+	}
+	out := filepath.Join(scratch, "hooked", strings.ReplaceAll(strings.TrimPrefix(spec.File, "/"), "/", "_"))
 	os.MkdirAll(filepath.Dir(out), 0o755)
 	if err := os.WriteFile(out, buf.Bytes(), 0o644); err != nil {
 		return "", "", err
 	}
 	return src, out, nil
+}
+
+
+// hookDecls writes the declaration file of exported hooks next to the hooked
+// source (as an overlay entry).
+func hookDecls(spec HookSpec, scratch string) (virtual, real string, err error) {
+	src := spec.File
+	if !filepath.IsAbs(src) {
+		src = filepath.Join(RepoDir, spec.File)
+	}
+	b, err := os.ReadFile(src)
+	if err != nil {
+		return "", "", err
+	}
+	m := pkgClause.FindSubmatch(b)
+	if m == nil {
+		return "", "", fmt.Errorf("no package clause in %s", src)
+	}
+	out := filepath.Join(scratch, "hooked", "decl_"+strings.ReplaceAll(strings.TrimPrefix(spec.File, "/"), "/", "_"))
+	os.MkdirAll(filepath.Dir(out), 0o755)
+	if err := os.WriteFile(out, []byte("package "+string(m[1])+"\n\n"+spec.Decls+"\n"), 0o644); err != nil {
+		return "", "", err
+	}
+	return filepath.Join(filepath.Dir(src), "zz_verif_hookdecl.go"), out, nil
 }
